@@ -266,6 +266,20 @@ class PDLRewritePattern(RewritePattern):
                 if not matcher.check_native_constraints(constraint_op):
                     return
 
+        # Results of matched operations that are only used by the rewrite
+        for result_op in parent.body.ops:
+            if (
+                isinstance(result_op, pdl.ResultOp)
+                and result_op.val not in matcher.matching_context
+            ):
+                matched_op = matcher.matching_context.get(result_op.parent_)
+                if not isinstance(matched_op, Operation):
+                    continue
+                index = result_op.index.value.data
+                if len(matched_op.results) <= index:
+                    return
+                matcher.matching_context[result_op.val] = matched_op.results[index]
+
         self.interpreter.push_scope("rewrite")
         self.interpreter.set_values(matcher.matching_context.items())
         self.functions.rewriter = rewriter
